@@ -197,6 +197,20 @@ def dumpDiff (durableOnly : Bool) (sp : Spec) (specObs implObs : String) : List 
     else if durableOnly && !(ancestorsDurable sp (parsePath x.1)) then none
     else some (parsePath x.1)
 
+/-- tree shape of an observed dump: every visible entry's proper ancestors (as far as the dump lists
+    them) are visible directories.  Returns the offending entries with the ancestor that is missing or
+    not a directory. -/
+def treeViolations (implObs : String) : List Path :=
+  let kv := splitDump implObs
+  kv.flatMap fun (k, v) =>
+    if v == "n" then [] else
+    let p := parsePath k
+    ((List.range p.length).drop 1).flatMap fun j =>
+      let a := p.take j
+      match kv.find? (fun x => x.1 == renderPath a) with
+      | some x => if x.2.startsWith "d:" then [] else [p, a]
+      | none => []
+
 def dumpAgrees (sp : Spec) (specObs implObs : String) : Bool := (dumpDiff true sp specObs implObs).isEmpty
 
 structure Verdict where
@@ -309,6 +323,13 @@ def evalOne (prop : String) (cfg : Cfg) (fx : Fixes) (a : Acc) (line h : Nat) (o
         match op with
         | .dump _ => if a.crashed[h]! then dumpDiff true sp1 ss implObs else []
         | _ => []
+    -- what is observable is a well-formed tree, whatever the spec says about the single paths (in C07 a
+    -- path below a non-durable ancestor is not compared, so an entry hanging in the air would go unseen)
+    let shape : List Path := match op with
+      | .dump _ => if bad.isEmpty then treeViolations implObs else []
+      | _ => []
+    let shapeOnly := bad.isEmpty && !shape.isEmpty
+    let bad := if shapeOnly then shape else bad
     if !bad.isEmpty then
       -- C07: growing past a pending SetLen (finding 1) is a live-view defect only; it never
       -- reaches the durable image, so it explains nothing there
@@ -323,7 +344,7 @@ def evalOne (prop : String) (cfg : Cfg) (fx : Fixes) (a : Acc) (line h : Nat) (o
       let pat := match explain ts bad with
         | some n => findingId prop n
         | none => "none"
-      let lbl := if prop == "C10" then "posix" else "durable"
+      let lbl := if shapeOnly then "not-a-tree:expected" else if prop == "C10" then "posix" else "durable"
       v := { v with oOk := false, oLine := line, pattern := pat,
                     oDetail := s!"at={" ".intercalate (bad.map renderPath)} {lbl}={ss} impl={implObs}" }
   return { a with v := v }
